@@ -1,8 +1,10 @@
+from checks import finite
 from checks.generic import run_components
 
-ASSUME = ["A-INT: Python/numpy ints treated as mathematical integers", "A-FLOAT: floats treated as reals"]
+ASSUME = ["A-INT", "C semantics of restrict / automatic storage are trusted; E2 is bounded over programs by the corpus",
+          "licm storage check is bounded over the listed loop sizes (1 .. 10^6)"]
 
 
 def run(tier, seed):
-    return run_components("C07", tier, seed, ['e1', 'e2'], ASSUME,
-                          ["kernelvc (E2 walker; scoping mirrors C/formatter.py)", "UFL form data as oracle for extents"])
+    return run_components("C07", tier, seed, ["e1", finite.c07_licm_storage, "e2"], ASSUME,
+                          ["kernelvc (E2 walker; scoping mirrors C/formatter.py)"])
